@@ -123,9 +123,10 @@ def run(ctx, build):
             if got not in ("ValueError", "TypeError"):
                 viols.append({"key": f"paccepts:{prob}:{sorted((k, str(v)) for k, v in m.items())}", "what": f"{prob} with {m} was not rejected (got {got or 'a problem instance'})", "input": {"problem": prob, "params": m}})
     n_ok = 0
+    n_table_precision = 0
     for i, lst in by_case.items():
         solver, cfg = lst[0][0][2], lst[0][0][3]
-        base = None
+        got_by = {}
         for mt, r in lst:
             route, order = mt[4], mt[5]
             if "error" in r or r.get("raised"):
@@ -142,17 +143,36 @@ def run(ctx, build):
             if r.get("dtype") != "float64":
                 viols.append({"key": f"float32:{order}", "what": f"double precision requested (default) but values are {r.get('dtype')} when the {order.replace('_', ' ')} ({route} route)",
                               "input": {"solver": solver, "config": cfg, "route": route, "order": order, "problem": mt[6]}})
-            sig = (r["iteration"], r["policy"])
-            vals = [float(F(x)) for x in r["values"]]
-            if order == "solver_first" and mt[6] == "forest" and base is not None and base[2] == "kwargs" and r["values"] != base[3]:
-                viols.append({"key": f"order-differs:{solver}:{sorted(cfg.items())}", "what": "same parameters, same route: values differ between the two construction orders on a problem whose tables are exact in single and double precision",
-                              "input": {"solver": solver, "config": cfg, "route": route, "order": order, "problem": mt[6]}})
-            if order == "problem_first":
-                if base is None:
-                    base = (sig, vals, route, r["values"])
-                elif sig != base[0] or any(abs(a - b) > 1e-5 * max(1.0, abs(a)) for a, b in zip(vals, base[1])):
-                    viols.append({"key": f"routes-differ:{solver}:{sorted(cfg.items())}", "what": f"routes {base[2]} and {route} give different results for the same parameters",
-                                  "input": {"solver": solver, "config": cfg, "problem": mt[6]}})
+            got_by[(route, order)] = r
+        # Exact comparisons (fresh process each).  D = kwargs route with 64-bit mode already on when the problem is built.
+        #  * kwargs and configuration-only in a fresh process build the problem under the same mode: bit-identical;
+        #  * the YAML reload happens after a first solver exists (64-bit mode on): bit-identical to D;
+        #  * problem-first vs D: bit-identical when the problem's tables are exact in single precision (Forest, p = 1/4);
+        #    otherwise the problem object built BEFORE 64-bit mode keeps single-precision tables (problem data, not the
+        #    solver's values): float64 values that agree with D up to the single-precision evaluation of the problem's own
+        #    tables (special functions in float32: observed up to 1.2e-6 relative; bound 1e-5).
+        A, B, C, D = (got_by.get(k) for k in (("kwargs", "problem_first"), ("config_only", "problem_first"), ("yaml", "problem_first"), ("kwargs", "solver_first")))
+        prob = lst[0][0][6]
+
+        def differs(x, y):
+            return x is not None and y is not None and (x["iteration"], x["policy"], x["values"]) != (y["iteration"], y["policy"], y["values"])
+
+        def close(x, y):
+            vx, vy = [float(F(v)) for v in x["values"]], [float(F(v)) for v in y["values"]]
+            return x["iteration"] == y["iteration"] and all(abs(a - b) <= 1e-5 * max(1.0, abs(a)) for a, b in zip(vx, vy))
+        for (n1, x), (n2, y) in ((("kwargs", A), ("configuration-only", B)), (("YAML reload", C), ("kwargs after a first solver", D))):
+            if differs(x, y):
+                viols.append({"key": f"routes-differ:{solver}:{sorted(cfg.items())}", "what": f"routes {n1} and {n2} give different results for the same parameters (same 64-bit mode at problem construction)",
+                              "input": {"solver": solver, "config": cfg, "problem": prob}})
+        if differs(A, D):
+            if prob == "forest":
+                viols.append({"key": f"order-differs:{solver}:{sorted(cfg.items())}", "what": "same parameters, same route: results differ between the two construction orders on a problem whose tables are exact in single and double precision",
+                              "input": {"solver": solver, "config": cfg, "route": "kwargs", "problem": prob}})
+            elif not close(A, D):
+                viols.append({"key": f"order-differs:{solver}:{sorted(cfg.items())}", "what": "same parameters, same route: results of the two construction orders differ by more than single-precision rounding of the problem's own tables",
+                              "input": {"solver": solver, "config": cfg, "route": "kwargs", "problem": prob}})
+            else:
+                n_table_precision += 1
     # the translated validators vs construction outcomes (model evaluated in the kernel)
     items = []
     if build["model_ok"]:
@@ -169,6 +189,8 @@ def run(ctx, build):
     cov = {
         "evaluations": len(jobs), "distinct_nontrivial": len({(m[2], str(sorted(m[3].items())) if isinstance(m[3], dict) else str(m[3])) for m in meta}),
         "accepted_sets_that_worked": n_ok,
+        "route_and_order_comparisons": "bit-exact (kwargs = configuration-only; YAML reload = kwargs after a first solver; both orders on dyadic Forest tables)",
+        "cases_where_orders_differ_only_by_single_precision_problem_tables": n_table_precision,
         "rule": "FRESH process per construction (64-bit mode is process-global): solver class x route (kwargs + problem instance, configuration object alone, YAML reload) x "
                 "construction order x boundary grid (gamma 0, 2^-20, 1/2, 1-2^-20, 1; epsilon 1e-12 .. 1e6 so thresholds straddle 1, 10, 100; integer fields at -1/0/1; bad strings; "
                 "problem fields at and around their bounds); accepted sets must solve(3) and agree across routes; every case is a distinct parameter set",
